@@ -126,6 +126,7 @@ package engine
 //@ pred cellOk(p *SearchEngineState) := p != nil && p.reader != nil && rdInv(p.reader)
 //@    && p.loopStack != nil && p.backtrack != nil && p.variableStack != nil && p.callStack != nil
 //@    && (p.backtrack.store.ref != p.ref || p.backtrack.store.ref == 0)
+//@    && p.environment.Value != nil
 //@    && 0 <= p.startFileOffset && p.startFileOffset <= p.currentFileOffset && p.currentFileOffset <= p.reader.size
 //@    && p.currentMatch == ssub(rdData(p.reader), p.startFileOffset, p.currentFileOffset)
 //@    && (asciiText(rdData(p.reader)) ==> p.startLineNum == lineOf(rdData(p.reader), p.startFileOffset) && p.currentLineNum == lineOf(rdData(p.reader), p.currentFileOffset)
@@ -168,7 +169,7 @@ package engine
 //@   ensures stacks: len(result.backtrack.store) == 0 && len(result.loopStack.store) == 0 && len(result.variableStack.store) == 0 && len(result.callStack.store) == 0
 
 //@ func (*SearchEngineState).Copy [C03 C09 C10 C02]
-//@   requires es != nil && es.loopStack != nil && es.backtrack != nil && es.variableStack != nil && es.callStack != nil
+//@   requires es != nil && es.loopStack != nil && es.backtrack != nil && es.variableStack != nil && es.callStack != nil && es.environment.Value != nil
 //@   ensures fresh: result != nil && fresh(result) && fresh(result.loopStack) && fresh(result.backtrack) && fresh(result.variableStack) && fresh(result.callStack)
 //@   ensures scalars: result.status == es.status && result.programCounter == es.programCounter && result.currentFileOffset == es.currentFileOffset && result.currentMatch == es.currentMatch
 //@        && result.currentLineNum == es.currentLineNum && result.currentColumnNum == es.currentColumnNum && result.startFileOffset == es.startFileOffset && result.startLineNum == es.startLineNum
@@ -178,6 +179,9 @@ package engine
 //@   ensures loops: forall i :: { result.loopStack.store[i] } 0 <= i && i < len(es.loopStack.store) ==> result.loopStack.store[i] == es.loopStack.store[i]
 //@   ensures calls: forall i :: { result.callStack.store[i] } 0 <= i && i < len(es.callStack.store) ==> result.callStack.store[i] == es.callStack.store[i]
 //@   ensures self: result.backtrack.store.ref != result.ref || result.backtrack.store.ref == 0
+//@   ensures isolated: es.environment.Value != nil ==> fresh(result.environment.Value) && domain(result.environment.Value) == domain(es.environment.Value) [C02]
+//@   ensures bindings: es.environment.Value != nil ==> forall k Str :: { select(values(result.environment.Value), k) } has(es.environment.Value, k) && (es.environment.Value[k] is ValueString) ==> result.environment.Value[k] == es.environment.Value[k] [C02]
+//@   ensures envnew: result.environment.Value != nil
 //@   ensures ok: cellOk(es) ==> cellOk(result)
 //@   ensures vars: forall i :: { result.variableStack.store[i] } 0 <= i && i < len(es.variableStack.store) ==> result.variableStack.store[i] == es.variableStack.store[i]
 
@@ -238,6 +242,80 @@ package engine
 //@   ensures over: !zero && iter >= i.MinLoops && !inRange ==> backtrackOf(result, nb, snap0) [C01]
 //@   ensures record: !zero && (iter < i.MinLoops || (inRange && !i.Fewest)) ==> len(result.loopStack.store) > 0 && result.loopStack.store[len(result.loopStack.store) - 1].iterationStep == iter
 //@        && result.loopStack.store[len(result.loopStack.store) - 1].loopMatchIndexStart == len(result.currentMatch) && result.loopStack.store[len(result.loopStack.store) - 1].loopId == i.Id [C10 C01]
+
+// ---- captures and back-references (C02) ----
+//@ func (ValueHashMap).Copy [C02]
+//@   trusted
+//@   requires v.Value != nil
+//@   ensures result is ValueHashMap && fresh((result as ValueHashMap).Value) && domain((result as ValueHashMap).Value) == domain(v.Value)
+//@   ensures forall k Str :: { select(values((result as ValueHashMap).Value), k) } has(v.Value, k) && (v.Value[k] is ValueString) ==> (result as ValueHashMap).Value[k] == v.Value[k]
+
+//@ pred noNamedLoop(es *SearchEngineState) := forall k :: { es.loopStack.store[k].name } 0 <= k && k < len(es.loopStack.store) ==> es.loopStack.store[k].name == ""
+
+//@ func (*SearchEngineState).MATCH [C03 C09 C10 C01 C02 C16]
+//@   requires cellOk(es)
+//@   let e0 := *es
+//@   let d0 := rdData(es.reader)
+//@   let off := es.currentFileOffset
+//@   let n := len(value)
+//@   let nb := len(es.backtrack.store)
+//@   let snap0 := es.backtrack.store[nb - 1]
+//@   let avail := n > 0 && off + n <= es.reader.size
+//@   let same := caseless ? sfold(value, ssub(d0, off, off + n)) : (value == ssub(d0, off, off + n))
+//@   let hit := avail && (not ? !same : same)
+//@   modifies inferred
+//@   ensures step: cellOk(es) && frozen(es, e0) && rdData(es.reader) == d0
+//@   ensures hit: hit ==> es.currentFileOffset == off + n && es.currentMatch == e0.currentMatch ++ ssub(d0, off, off + n) && es.programCounter == e0.programCounter + 1 && es.status == e0.status && es.backtrack == e0.backtrack && es.environment == e0.environment [C01 C02 C16]
+//@   ensures miss: !hit ==> backtrackOf(es, nb, snap0) [C01 C02 C16]
+
+//@ func (*SearchEngineState).MATCHVAR [C03 C09 C10 C02]
+//@   requires cellOk(es)
+//@   presumes forall k Str :: { select(values(es.environment.Value), k) } has(es.environment.Value, k) ==> es.environment.Value[k] != nil
+//@   let e0 := *es
+//@   let d0 := rdData(es.reader)
+//@   let off := es.currentFileOffset
+//@   let nb := len(es.backtrack.store)
+//@   let snap0 := es.backtrack.store[nb - 1]
+//@   let bound := has(es.environment.Value, name) && (es.environment.Value[name] is ValueString)
+//@   let text := (es.environment.Value[name] as ValueString).Value
+//@   let n := len(text)
+//@   modifies inferred
+//@   ensures step: cellOk(es) && frozen(es, e0) && rdData(es.reader) == d0
+//@   ensures unbound: !bound ==> backtrackOf(es, nb, snap0) [C02]
+//@   ensures empty: bound && n == 0 ==> es.currentFileOffset == off && es.programCounter == e0.programCounter + 1 && es.status == e0.status [C02]
+//@   ensures backref: bound && n > 0 && off + n <= e0.reader.size && text == ssub(d0, off, off + n) ==> es.currentFileOffset == off + n && es.programCounter == e0.programCounter + 1 && es.currentMatch == e0.currentMatch ++ text [C02]
+//@   ensures mismatch: bound && n > 0 && !(off + n <= e0.reader.size && text == ssub(d0, off, off + n)) ==> backtrackOf(es, nb, snap0) [C02]
+
+//@ func (*SearchEngineState).INSERTVARIABLE [C03 C09 C10 C02]
+//@   nopanic
+//@   requires cellOk(es)
+//@   presumes forall k :: { es.loopStack.store[k].variables } 0 <= k && k < len(es.loopStack.store) ==> es.loopStack.store[k].variables.Value != nil
+//@   presumes snapshotEnvs: forall k :: { es.backtrack.store[k].environment } 0 <= k && k < len(es.backtrack.store) ==> es.backtrack.store[k].environment.Value != es.environment.Value [C02]
+//@   let e0 := *es
+//@   let d0 := rdData(es.reader)
+//@   let env := es.environment.Value
+//@   modifies allmaps(es.environment.Value)
+//@   ensures step: cellOk(es) && frozen(es, e0) && rdData(es.reader) == d0 && *es == e0
+//@   ensures bind: noNamedLoop(es) ==> domain(env) == store(old(domain(env)), name, true) && values(env) == store(old(values(env)), name, value) [C02]
+//@   ensures isolated: noNamedLoop(es) ==> forall k :: { es.backtrack.store[k].environment } 0 <= k && k < len(es.backtrack.store) ==> domain(es.backtrack.store[k].environment.Value) == old(domain(es.backtrack.store[k].environment.Value)) && values(es.backtrack.store[k].environment.Value) == old(values(es.backtrack.store[k].environment.Value)) [C02]
+//@   loop 1 invariant cellOk(es) && frozen(es, e0) && rdData(es.reader) == d0 && *es == e0 && i < len(es.loopStack.store) && (lowestScope != nil ==> lowestScope.variables.Value != nil) && (noNamedLoop(es) && lowestScope != nil ==> lowestScope.name == "")
+//@   loop 1 decreases i + 1
+
+//@ func (*SearchEngineState).ENDVAR [C03 C09 C10 C02]
+//@   requires cellOk(es)
+//@   presumes len(es.variableStack.store) > 0
+//@   presumes es.variableStack.store[len(es.variableStack.store) - 1].name == name
+//@   presumes 0 <= es.variableStack.store[len(es.variableStack.store) - 1].startOffset && es.variableStack.store[len(es.variableStack.store) - 1].startOffset <= len(es.currentMatch)
+//@   presumes forall k :: { es.loopStack.store[k].variables } 0 <= k && k < len(es.loopStack.store) ==> es.loopStack.store[k].variables.Value != nil
+//@   let e0 := *es
+//@   let d0 := rdData(es.reader)
+//@   let env := es.environment.Value
+//@   let so := es.variableStack.store[len(es.variableStack.store) - 1].startOffset
+//@   modifies inferred
+//@   ensures step: cellOk(es) && frozen(es, e0) && rdData(es.reader) == d0
+//@   ensures bind: noNamedLoop(es) ==> has(env, name) && env[name] == box(ValueString, mk(ValueString, ssub(e0.currentMatch, so, len(e0.currentMatch)))) && es.environment.Value == env [C02]
+//@   ensures others: noNamedLoop(es) ==> forall k Str :: { select(values(env), k) } k != name ==> has(env, k) == old(has(env, k)) && env[k] == old(env[k]) [C02]
+//@   ensures pc: es.programCounter == e0.programCounter + 1 && es.currentFileOffset == e0.currentFileOffset && es.currentMatch == e0.currentMatch
 
 // ---- VM primitives: each keeps the cell invariant and never moves the attempt's start ----
 //@ func (*SearchEngineState).READ [C03 C09 C07]
@@ -352,22 +430,6 @@ package engine
 //@   ensures step: cellOk(es) && frozen(es, e0) && rdData(es.reader) == d0
 //@   loop 1 invariant cellOk(es) && frozen(es, e0) && rdData(es.reader) == d0 && len(value) == 1
 
-//@ func (*SearchEngineState).MATCH [C03 C09 C10]
-//@   requires cellOk(es)
-//@   let e0 := *es
-//@   let d0 := rdData(es.reader)
-//@   modifies inferred
-//@   ensures step: cellOk(es) && frozen(es, e0) && rdData(es.reader) == d0
-
-//@ func (*SearchEngineState).MATCHVAR [C03 C09 C10 C02]
-//@   requires cellOk(es)
-//@   presumes es.environment.Value != nil
-//@   presumes forall k Str :: { select(values(es.environment.Value), k) } has(es.environment.Value, k) ==> es.environment.Value[k] != nil
-//@   let e0 := *es
-//@   let d0 := rdData(es.reader)
-//@   modifies inferred
-//@   ensures step: cellOk(es) && frozen(es, e0) && rdData(es.reader) == d0
-
 //@ func (*SearchEngineState).CHECKPOINT [C03 C09 C10 C02 C01]
 //@   requires cellOk(es)
 //@   let e0 := *es
@@ -380,7 +442,7 @@ package engine
 //@   ensures snap: es.backtrack.store[n].programCounter == e0.programCounter && es.backtrack.store[n].currentFileOffset == e0.currentFileOffset && es.backtrack.store[n].currentMatch == e0.currentMatch && es.backtrack.store[n].status == e0.status
 //@   ensures snaploops: es.backtrack.store[n].loopStack != nil && es.backtrack.store[n].loopStack != e0.loopStack && len(es.backtrack.store[n].loopStack.store) == len(e0.loopStack.store) && es.backtrack.store[n].callStack != nil && len(es.backtrack.store[n].callStack.store) == len(e0.callStack.store)
 //@   ensures snapframe: frozen(&es.backtrack.store[n], e0)
-//@   ensures snapfresh: fresh(es.backtrack.store[n].loopStack) && fresh(es.backtrack.store[n].callStack) && fresh(es.backtrack.store[n].backtrack) && fresh(es.backtrack.store[n].variableStack)
+//@   ensures snapfresh: fresh(es.backtrack.store[n].loopStack) && fresh(es.backtrack.store[n].callStack) && fresh(es.backtrack.store[n].backtrack) && fresh(es.backtrack.store[n].variableStack) && fresh(es.backtrack.store[n].environment.Value)
 
 //@ pred sameLoop(es *SearchEngineState, loopId Int) := len(es.loopStack.store) > 0 && es.loopStack.store[len(es.loopStack.store) - 1].loopId == loopId && es.loopStack.store[len(es.loopStack.store) - 1].callLevel == len(es.callStack.store)
 //@ func (*SearchEngineState).INITLOOPSTACK [C03 C09 C10 C01]
@@ -444,30 +506,6 @@ package engine
 //@   let d0 := rdData(es.reader)
 //@   modifies inferred
 //@   ensures step: cellOk(es) && frozen(es, e0) && rdData(es.reader) == d0
-
-//@ func (*SearchEngineState).ENDVAR [C03 C09 C10 C02]
-//@   requires cellOk(es)
-//@   presumes len(es.variableStack.store) > 0
-//@   presumes es.variableStack.store[len(es.variableStack.store) - 1].name == name
-//@   presumes 0 <= es.variableStack.store[len(es.variableStack.store) - 1].startOffset && es.variableStack.store[len(es.variableStack.store) - 1].startOffset <= len(es.currentMatch)
-//@   presumes es.environment.Value != nil
-//@   let e0 := *es
-//@   let d0 := rdData(es.reader)
-//@   modifies inferred
-//@   ensures step: cellOk(es) && frozen(es, e0) && rdData(es.reader) == d0
-
-//@ func (*SearchEngineState).INSERTVARIABLE [C03 C09 C10 C02]
-//@   nopanic
-//@   requires cellOk(es)
-//@   presumes es.environment.Value != nil
-//@   presumes forall k :: { es.loopStack.store[k].variables } 0 <= k && k < len(es.loopStack.store) ==> es.loopStack.store[k].variables.Value != nil
-//@   let e0 := *es
-//@   let d0 := rdData(es.reader)
-//@   modifies allmaps(es.environment.Value)
-//@   ensures step: cellOk(es) && frozen(es, e0) && rdData(es.reader) == d0
-//@   ensures same: *es == e0
-//@   loop 1 invariant cellOk(es) && frozen(es, e0) && rdData(es.reader) == d0 && *es == e0 && i < len(es.loopStack.store) && (lowestScope != nil ==> lowestScope.variables.Value != nil)
-//@   loop 1 decreases i + 1
 
 //@ func (*SearchEngineState).VALIDATECALL [C03 C09 C10]
 //@   requires cellOk(es)
